@@ -17,7 +17,7 @@ def S(n, pH, els, **kw):
 def common_obs(els, species=(), phases=(), extra=()):
     o = [("pH", '-LA("H+")', "i"), ("pe", '-LA("e-")', "i"), ("mu", "MU", "i"), ("alk", "ALK", "i"),
          ("aH2O", 'ACT("H2O")', "i"), ("rho", "RHO", "i"), ("sc", "SC", "i"), ("tc", "TC", "i"),
-         ("water", 'TOT("water")', "x"), ("vol", "SOLN_VOL", "x"), ("cb", "CHARGE_BALANCE", "x"),
+         ("water", 'TOT("water")', "x"), ("vol", "SOLN_VOL", "x"), ("cb", "CHARGE_BALANCE", "xs"),
          ("totH", 'TOTMOLE("H")', "x"), ("totO", 'TOTMOLE("O")', "x")]
     for e in els:
         o.append(("tot_" + e, 'TOT("%s")' % e, "i"))
@@ -163,7 +163,7 @@ def bases():
 
 def trailer(obs):
     heads = " ".join(h for h, _, _ in obs)
-    lines = ["SELECTED_OUTPUT 1", " -reset false", " -simulation true", " -state true", " -solution true", " -step true",
+    lines = ["KNOBS", " -convergence_tolerance 1e-12", "SELECTED_OUTPUT 1", " -reset false", " -simulation true", " -state true", " -solution true", " -step true",
              " -high_precision true", "USER_PUNCH 1", " -headings %s" % heads]
     n = 10
     for h, e, _ in obs:
